@@ -4,7 +4,6 @@ import ScoresVerif.Driver.Proto
 import ScoresVerif.Gen.Discretise
 import ScoresVerif.Gen.Contingency
 import ScoresVerif.Model.C08
-import ScoresVerif.Spec.Discretise
 
 namespace SV.Driver.C08
 open Lean SV SV.Proto
@@ -61,18 +60,6 @@ def opProp : Op := fun j => do
   let mode ← getMode (← field j "mode"); let tol ← optFl j "tol"
   pure <| outExc ((Model.C08.proportion data cs mode tol).map outFlList)
 
-/-- the property's definition of the discretised value; null = outside its domain -/
-def opSpec : Op := fun j => do
-  let data ← fFlList j "data"; let cs ← fFlList j "comparison"
-  let t ← fRat j "tol"
-  match Spec.Discretise.Rel.ofName? (← fStr j "rel") with
-  | none => throw "unknown relation"
-  | some r =>
-    pure <| Json.arr (data.map fun x => Json.arr (cs.map fun c =>
-      match Spec.Discretise.disc r x c t with
-      | some v => outFl v
-      | none => Json.null).toArray).toArray
-
 def outTable (t : Model.C08.Table) : List (String × Json) :=
   [("tp", outFl t.tp), ("tn", outFl t.tn), ("fp", outFl t.fp), ("fn", outFl t.fn), ("total", outFl t.total)]
 
@@ -99,22 +86,7 @@ def opETable : Op := fun j => do
      ("map_fp", outFlList (es.map fun e => Gen.Contingency.map_fp e.1 e.2)),
      ("map_fn", outFlList (es.map fun e => Gen.Contingency.map_fn e.1 e.2))])
 
-def outCounts (c : Spec.Discretise.Counts) : List (String × Json) :=
-  [("tp", outNat c.tp), ("tn", outNat c.tn), ("fp", outNat c.fp), ("fn", outNat c.fn), ("total", outNat c.total)]
-
-/-- direct counting with `op x thr` for the SUPPLIED threshold -/
-def opCountSpec : Op := fun j => do
-  let ps ← zipPairs (← fFlList j "fcst") (← fFlList j "obs")
-  let thr ← fFl j "thr"; let op ← getOp j "op"
-  pure <| outObj (outCounts (Spec.Discretise.countSpec op thr ps) ++
-    [("fcst_events", outFlList (ps.map fun p => Spec.Discretise.event op thr p.1)),
-     ("obs_events", outFlList (ps.map fun p => Spec.Discretise.event op thr p.2))])
-
-def opCountEvents : Op := fun j => do
-  let es ← zipPairs (← fFlList j "fcst") (← fFlList j "obs")
-  pure <| outObj (outCounts (Spec.Discretise.countEvents es))
-
-def ops : OpTable := [("c08.cmp", opCmp), ("c08.bin", opBin), ("c08.prop", opProp), ("c08.spec", opSpec),
-  ("c08.table", opTable), ("c08.etable", opETable), ("c08.countspec", opCountSpec), ("c08.countevents", opCountEvents)]
+def ops : OpTable := [("c08.cmp", opCmp), ("c08.bin", opBin), ("c08.prop", opProp),
+  ("c08.table", opTable), ("c08.etable", opETable)]
 
 end SV.Driver.C08
